@@ -35,6 +35,51 @@ def _sentinel(p) -> Optional[str]:
     return None
 
 
+def _put_sites(gp: CFG, scope: Scope):
+    """Calls that hand a value to a queue, however the callable is spelled - `q.put_nowait(x)`, `q.put(x)`,
+    `loop.call_soon_threadsafe(q.put_nowait, x)`, a local bound to functools.partial(...) of one of these, a nested
+    one-line wrapper (inlined by the graph builder), a hoisted bound method (inlined by the loader):
+    (node, 'direct' | 'threadsafe', queue variable, value expression)."""
+    from ..match import closure_value
+    out = []
+    for n in gp.nodes:
+        if n.kind != 'call':
+            continue
+        f, args = n.ast.func, list(n.ast.args)
+        if isinstance(f, ast.Name):
+            sc_ = scope
+            v = None
+            while sc_ is not None and v is None:
+                if sc_.kind == 'function' and f.id in sc_.locals:
+                    v = closure_value(sc_, f.id)
+                    break
+                sc_ = sc_.parent
+            if isinstance(v, ast.Call) and gp.res.path(v.func) == 'functools.partial' and v.args and not v.keywords:
+                f, args = v.args[0], list(v.args[1:]) + args
+            elif isinstance(v, ast.Attribute):
+                f = v
+        if not isinstance(f, ast.Attribute):
+            continue
+        from ..dataflow import unalias
+        args = [unalias(gp, n, a_) for a_ in args]
+        if f.attr in ('put_nowait', 'put') and isinstance(f.value, ast.Name) and len(args) == 1:
+            out.append((n, 'direct', f.value.id, args[0]))
+        elif f.attr == 'call_soon_threadsafe' and len(args) == 2:
+            tgt = args[0]
+            if isinstance(tgt, ast.Name):
+                sc_ = scope
+                while sc_ is not None:
+                    if sc_.kind == 'function' and tgt.id in sc_.locals:
+                        tv = closure_value(sc_, tgt.id)
+                        if isinstance(tv, ast.Attribute):
+                            tgt = tv
+                        break
+                    sc_ = sc_.parent
+            if isinstance(tgt, ast.Attribute) and tgt.attr in ('put_nowait',) and isinstance(tgt.value, ast.Name):
+                out.append((n, 'threadsafe', tgt.value.id, args[1]))
+    return out
+
+
 def c16(ctx: Ctx) -> None:
     p = ctx.program
     ctx.trusted += ['asyncio.Queue / queue.Queue are FIFO', 'ThreadPoolExecutor.__exit__ joins its workers',
@@ -46,6 +91,9 @@ def c16(ctx: Ctx) -> None:
     ctx.rule('C16-TA5', 'thread -> loop hand-off goes through call_soon_threadsafe(q.put_nowait); the sync bridge uses queue.Queue', 2)
     ctx.rule('C16-TA6', 'the executor is a `with ThreadPoolExecutor(1)` enclosing the submit and the whole consumer loop', 2)
     ctx.rule('C16-TA7', 'producers forward the loop variable with one put per iteration', 2)
+    ctx.rule('C16-TA8', 'an exception of the source escapes the producer (so that the consumer re-raises it); nothing in the producer swallows it', 2)
+    ctx.rule('C16-TA9', 'the consumer loop is left only through the sentinel test; dequeues block without a timeout', 2)
+    ctx.rule('C16-TA10', 'a caller-supplied event loop is not closed or stopped by the bridge', 1)
     sent = _sentinel(p)
     if sent is None:
         raise AnalysisError('module-level sentinel (X = object()) not found')
@@ -96,13 +144,14 @@ def c16(ctx: Ctx) -> None:
                           'the consumer never stops', construct=construct_key(fname, 'no sentinel producer'))
         for pr in prods:
             gp = build(pr, p)
-            sput = [n for n in gp.nodes if n.kind == 'call' and n.ast.args and isinstance(n.ast.args[-1], ast.Name) and n.ast.args[-1].id == sent]
-            loops = [n for n in gp.nodes if n.kind == 'for_iter']
+            sites = _put_sites(gp, pr)
+            sput = [n for n, form, q_, arg in sites if isinstance(arg, ast.Name) and arg.id == sent]
+            loops = [n for n in gp.nodes if n.kind == 'for_iter' and not n.meta.get('inlined')]
             lv = None
             if loops and isinstance(loops[0].ast.target, ast.Name):
                 lv = loops[0].ast.target.id
-            eput = [n for n in gp.nodes if n.kind == 'call' and n not in sput and n.ast.args and isinstance(n.ast.args[-1], ast.Name)
-                    and n.ast.args[-1].id == lv and norm(n.ast.func) in {norm(s.ast.func) for s in sput}]
+            eput = [n for n, form, q_, arg in sites if n not in sput and isinstance(arg, ast.Name) and arg.id == lv]
+            other_puts = [n for n, form, q_, arg in sites if n not in sput and n not in eput]
             # the sentinel put itself may fail (closed loop): its own exception edge is not a path "without" it
             w = must_pass(gp, [gp.entry], [gp.exit, gp.raise_exit], sput)
             w2 = find_path(gp, sput, eput) if sput and eput else None
@@ -114,34 +163,35 @@ def c16(ctx: Ctx) -> None:
             # TA7
             body = [n for n in gp.nodes if loops and loops[0].ast in n.loops]
             inner_loops = [n for n in body if n.kind in ('for_iter', 'loop_head')]
-            ok7 = len(loops) == 1 and len(eput) == 1 and eput[0] in body and not inner_loops
+            ok7 = len(loops) == 1 and len(eput) == 1 and eput[0] in body and not inner_loops and not other_puts
             ctx.check('C16-TA7', f'{pr.qualname}: for {lv} in ...: {norm(eput[0].ast) if eput else None}', f'{A}:{pr.lineno}', ok7,
                       'each element forwarded once, in order', 'elements are dropped, duplicated or transformed by the producer',
                       construct=construct_key(pr.qualname, 'forwarding'))
-            # TA5: what is `put`?
+            # TA8: failures of the source iteration leave the producer as exceptions
+            for lp_ in loops:
+                ee = [e for e in gp.succ[lp_.id] if e.label == 'exc']
+                # also calls inside the loop header (next() of a wrapped iterator) are the for_iter node itself
+                w8 = find_path(gp, [], [gp.exit], start_edges=ee) if ee else None
+                ctx.check('C16-TA8', f'{pr.qualname}: an exception raised by iterating {norm(lp_.ast.iter)} escapes', gp.loc(lp_), bool(ee) and w8 is None,
+                          'the worker\'s future carries the source\'s exception to the consumer',
+                          'a handler in the producer swallows (some of) the source\'s exceptions: the consumer sees a clean, shorter stream',
+                          witness=render(gp, w8), construct=construct_key(pr.qualname, 'source error swallowed'))
+            # TA5: how do the values travel?
             if eput:
-                info = callee_info(gp, eput[0].ast)
+                forms = {(form, q_) for n, form, q_, arg in sites if n in eput or n in sput}
+                qn = next(iter(forms))[1] if len(forms) == 1 else None
+                qdefs = [n for n in g.nodes if n.kind == 'store_name' and n.meta['name'] == qn] if qn else []
+                ctor = 'asyncio.Queue' if is_async else 'queue.Queue'
+                want_form = 'threadsafe' if is_async else 'direct'
+                okq = len(forms) == 1 and next(iter(forms))[0] == want_form and qn == qvar and bool(qdefs) and all(
+                    isinstance(d.meta.get('value'), ast.Call) and g.res.path(d.meta['value'].func) == ctor for d in qdefs)
                 if is_async:
-                    pc = info.get('partial')
-                    okq = False
-                    if info['kind'] == 'partial' and pc is not None:
-                        qn = pc.args[1].value.id if len(pc.args) == 2 and isinstance(pc.args[1], ast.Attribute) and isinstance(pc.args[1].value, ast.Name) else None
-                        qdefs = [n for n in g.nodes if n.kind == 'store_name' and n.meta['name'] == qn]
-                        okq = info['name'].endswith('.call_soon_threadsafe') and len(pc.args) == 2 and pc.args[1].attr == 'put_nowait' \
-                            and qn == qvar and all(isinstance(d.meta.get('value'), ast.Call) and g.res.path(d.meta['value'].func) == 'asyncio.Queue' for d in qdefs) and bool(qdefs)
-                        # the producer runs on the executor thread
-                    ctx.check('C16-TA5', f'{pr.qualname}: put = {norm(pc) if pc is not None else info["name"]}', gp.loc(eput[0]), okq,
+                    ctx.check('C16-TA5', f'{pr.qualname}: hand-off {sorted(forms)}', gp.loc(eput[0]), okq,
                               'loop.call_soon_threadsafe(q.put_nowait, x) on the consumer\'s asyncio.Queue',
                               'the helper thread touches the asyncio.Queue directly (no wake-up of the loop, not thread-safe) or a different queue',
                               construct=construct_key(pr.qualname, 'hand-off'))
                 else:
-                    name = info.get('name') or ''
-                    qn = name.split('.')[0]
-                    qdefs = [n for n in g.nodes if n.kind == 'store_name' and n.meta['name'] == qn]
-                    okq = name.endswith('.put_nowait') or name.endswith('.put')
-                    okq = okq and qn == qvar and bool(qdefs) and all(
-                        isinstance(d.meta.get('value'), ast.Call) and g.res.path(d.meta['value'].func) == 'queue.Queue' for d in qdefs)
-                    ctx.check('C16-TA5', f'{pr.qualname}: put = {name}', gp.loc(eput[0]), okq,
+                    ctx.check('C16-TA5', f'{pr.qualname}: hand-off {sorted(forms)}', gp.loc(eput[0]), okq,
                               'thread-safe queue.Queue between the loop thread and the plain consumer',
                               'the hand-off queue is not a thread-safe FIFO shared with the consumer',
                               construct=construct_key(pr.qualname, 'hand-off'))
@@ -160,16 +210,80 @@ def c16(ctx: Ctx) -> None:
                   'the source\'s exception is re-raised to the consumer after its elements',
                   'an exception of the source is swallowed: the stream just ends', witness=render(g, w),
                   construct=construct_key(fname, 'producer outcome not collected'))
+        # TA9: the only way out of the consumer loop is the sentinel
+        cloop = cb.loops[-1] if cb.loops else None
+        if cloop is None:
+            for x in ast.walk(f.node):
+                if isinstance(x, ast.While) and any(y is t for y in ast.walk(x.test)):
+                    cloop = x
+        if cloop is not None:
+            inside_l = [n for n in g.nodes if cloop in n.loops or (n.kind == 'branch' and any(y is n.meta['test'] for y in ast.walk(cloop.test)))]
+            ids_l = {n.id for n in inside_l}
+            head_l = next((n for n in g.nodes if n.kind == 'loop_head' and n.ast is cloop), None)
+            stop_ids = {id(e) for e in g.succ[cb.id] if e.label != cont_label}
+            # what can be reached from the loop head without taking the "sentinel seen" edge
+            seen_r = reach(g, [head_l] if head_l is not None else inside_l[:1], edge_ok=lambda e: e.label != 'exc' and id(e) not in stop_ids)
+            leaks = [e for n in inside_l if n.id in seen_r or n is head_l for e in g.succ[n.id] if e.label != 'exc' and e.dst.id not in ids_l
+                     and (head_l is None or e.dst is not head_l) and id(e) not in stop_ids and e.dst.kind != 'yield']
+            ctx.check('C16-TA9', f'{fname}: exits of the consumer loop other than the sentinel: {[norm(e.src.ast)[:40] if e.src.ast is not None else e.src.kind for e in leaks]}',
+                      g.loc(cb), not leaks, 'the stream ends exactly when the producer said so',
+                      'the consumer can leave the loop (break / return on a timeout, a done() poll, ...) while elements are still queued: they are lost',
+                      construct=construct_key(fname, 'consumer leaves early'))
+        for d in deq:
+            v = d.meta.get('value')
+            c = v.value if isinstance(v, ast.Await) else v
+            if isinstance(c, ast.Call):
+                timed = bool(c.keywords) or len(c.args) > 0 or (isinstance(c.func, ast.Attribute) and c.func.attr != 'get')
+                ctx.check('C16-TA9', f'{fname}: dequeue {norm(c)} blocks until a value arrives', g.loc(d), not timed,
+                          'plain blocking get()', 'a timed / non-blocking dequeue needs an extra exit from the loop: a race with the producer loses elements',
+                          construct=construct_key(fname, 'timed dequeue'))
+        # TA10
+        if not is_async and 'loop' in f.params:
+            from ..dataflow import leaves
+            scopes_ = [f] + [c for c in f.children if c.kind == 'function']
+            for sc_ in scopes_:
+                gs = g if sc_ is f else build(sc_, p)
+                for n in gs.nodes:
+                    if n.kind == 'call' and isinstance(n.ast.func, ast.Attribute) and n.ast.func.attr in ('close', 'stop', 'shutdown_asyncgens'):
+                        lf = leaves(gs, n, n.ast.func.value)
+                        owned = bool(lf) and all(isinstance(x, ast.Call) and gs.res.path(x.func) == 'asyncio.new_event_loop' for x in lf)
+                        is_loop = any((isinstance(x, ast.Name) and ('loop' in x.id)) or (isinstance(x, ast.Call) and 'loop' in (gs.res.path(x.func) or ''))
+                                      for x in lf)
+                        if is_loop:
+                            ctx.check('C16-TA10', f'{sc_.qualname}: {norm(n.ast)}', gs.loc(n), owned, 'only a loop the bridge created itself',
+                                      'the loop passed by the caller is closed/stopped: the next bridge (or anything else) on that loop fails or hangs',
+                                      construct=construct_key(sc_.qualname, 'closes caller loop'))
+            ctx.holds('C16-TA10', f'{fname}: scanned {len(scopes_)} scope(s) for close()/stop() on a caller-supplied loop', f'{A}:{f.lineno}')
         # TA6
         pools = [n for n in g.nodes if n.kind == 'with_enter' and isinstance(n.ast, ast.Call)
                  and (g.res.path(n.ast.func) or '').endswith('ThreadPoolExecutor')]
         okp = False
+        desc = None
+        inside = fut + [cb] + ys + coll
         if pools and fut:
             item = pools[0].meta['item']
-            okp = all(item in n.withs for n in fut + [cb] + ys + coll)
+            okp = all(item in n.withs for n in inside)
             a0 = pools[0].ast.args[0] if pools[0].ast.args else None
             okp = okp and isinstance(a0, ast.Constant) and a0.value == 1
-        ctx.check('C16-TA6', f'{fname}: with {norm(pools[0].ast) if pools else None} encloses submit, loop and collection', f'{A}:{f.lineno}', okp,
+            desc = f'with {norm(pools[0].ast)}'
+        elif fut:
+            # pool = ThreadPoolExecutor(1); try: ... finally: pool.shutdown(wait=True)   (what __exit__ does)
+            pdefs = [n for n in g.nodes if n.kind == 'store_name' and isinstance(n.meta.get('value'), ast.Call)
+                     and (g.res.path(n.meta['value'].func) or '').endswith('ThreadPoolExecutor')]
+            for pd in pdefs:
+                pv = pd.meta['name']
+                a0 = pd.meta['value'].args[0] if pd.meta['value'].args else None
+                for t_ in {tr for n in inside for tr, part in n.trys if part == 'body'}:
+                    shut = [x for st_ in t_.finalbody for x in ast.walk(st_) if isinstance(x, ast.Call) and isinstance(x.func, ast.Attribute)
+                            and x.func.attr == 'shutdown' and isinstance(x.func.value, ast.Name) and x.func.value.id == pv]
+                    waits = [x for x in shut if not any(k.arg == 'wait' and isinstance(k.value, ast.Constant) and k.value.value is False for k in x.keywords)
+                             and not (x.args and isinstance(x.args[0], ast.Constant) and x.args[0].value is False)]
+                    if waits and all(any(tr is t_ and part == 'body' for tr, part in n.trys) for n in inside) \
+                            and isinstance(a0, ast.Constant) and a0.value == 1:
+                        # nothing between creating the pool and entering the try may leave the pool behind
+                        okp = True
+                        desc = f'{pv} = {norm(pd.meta["value"])}; try: ... finally: {norm(waits[0])}'
+        ctx.check('C16-TA6', f'{fname}: {desc} encloses submit, loop and collection', f'{A}:{f.lineno}', okp,
                   'leaving the generator joins the single worker', 'the helper thread can outlive the iteration (executor not scoped around it)',
                   construct=construct_key(fname, 'executor scope'))
         # TA4
@@ -203,28 +317,36 @@ def c17(ctx: Ctx) -> None:
     ctx.rule('C17-R4', 'the awaitable is evaluated on the target loop and its outcome returned unchanged (return await, no handler)', 3)
     ctx.rule('C17-R5', 'loop_in_thread returns only after observing loop.is_running()', 1)
     ctx.rule('C17-R6', 'the stopper calls loop.call_soon_threadsafe(loop.stop) and then joins the worker', 1)
+    from ..dataflow import unalias, leaves
+    from ..sym import sym_env, subst, simplify
     ea = p.func(A, 'ensure_aw')
-    g = build(ea, p)
+    # the function handed to the executor is expanded in place: a nested closure, a module-level helper given its
+    # arguments, a helper that applies an operator.methodcaller - all give the same graph
+    g = build(ea, p, expand_deferred=True)
     awp, loopp = ea.params[0], ea.params[1]
     runner = next((c for c in ea.children if c.kind == 'function'), None)
+
+    def ua(n: Node, e: ast.AST) -> str:
+        return norm(unalias(g, n, e))
     # R1
     def atom(n: Node) -> Optional[str]:
-        if n.kind != 'branch':
+        if n.kind != 'branch' or n.meta.get('deferred'):
             return None
-        t = n.meta['test']
+        t = resolve(g, n, n.meta['test'], keep=(loopp, awp))
         if isinstance(t, ast.Compare) and len(t.ops) == 1 and isinstance(t.ops[0], (ast.Is, ast.IsNot)):
-            names = {norm(t.left), norm(t.comparators[0])}
-            if loopp in names and len(names) == 2:
-                other = (names - {loopp}).pop()
-                defs = [x for x in g.nodes if x.kind == 'store_name' and x.meta['name'] == other]
-                if defs and all(isinstance(d.meta.get('value'), ast.Call) and g.res.path(d.meta['value'].func) == 'asyncio.get_running_loop' for d in defs):
+            sides = [t.left, t.comparators[0]]
+            names = [norm(x) for x in sides]
+            if loopp in names and len(set(names)) == 2:
+                other = sides[1 - names.index(loopp)]
+                if isinstance(other, ast.Call) and g.res.path(other.func) == 'asyncio.get_running_loop':
                     return 'same' if isinstance(t.ops[0], ast.Is) else '!same'
         if isinstance(t, ast.Call) and isinstance(t.func, ast.Attribute) and isinstance(t.func.value, ast.Name) and t.func.value.id == loopp:
             return {'is_running': 'running', 'is_closed': 'closed'}.get(t.func.attr)
         return None
-    ends = [n for n in g.nodes if n.kind in ('return', 'raise')]
+    ends = [n for n in g.nodes if n.kind in ('return', 'raise') and not n.meta.get('deferred')]
     paths = enum_paths(g, ends, sources=[g.entry], edge_ok=_nonexc)
     actions_seen = set()
+    seen_inst = set()
     for pth in paths:
         facts: Dict[str, bool] = {}
         for e in pth:
@@ -240,23 +362,38 @@ def c17(ctx: Ctx) -> None:
             c = end.ast.exc
             action = 'raise RuntimeError' if isinstance(c, ast.Call) and norm(c.func) == 'RuntimeError' else 'raise other'
         else:
-            v = end.ast.value
-            inner = v.value if isinstance(v, ast.Await) else None
-            if isinstance(inner, ast.Name) and inner.id == awp:
-                action = 'inline'
-            elif isinstance(inner, ast.Call):
-                cn = norm(inner.func)
-                if cn == 'run_aw_threadsafe' and [norm(a_) for a_ in inner.args] == [awp, loopp]:
-                    action = 'threadsafe'
-                elif isinstance(inner.func, ast.Attribute) and inner.func.attr == 'run_in_executor' and runner is not None \
-                        and len(inner.args) == 2 and norm(inner.args[1]) == runner.name:
-                    action = 'run'
+            # what evaluates the awaitable on this path
+            aws_ = [e.src for e in pth if e.src.kind == 'await' and not e.src.meta.get('deferred')]
+            runs = [e.src for e in pth if e.src.kind == 'call' and e.src.meta.get('deferred') and isinstance(e.src.ast.func, ast.Attribute)
+                    and e.src.ast.func.attr == 'run_until_complete']
+            if len(aws_) == 1:
+                aw_n = aws_[0]
+                inner = resolve(g, aw_n, aw_n.ast.value, keep=(awp, loopp))
+                if isinstance(inner, ast.Name) and inner.id == awp:
+                    action = 'inline'
+                elif isinstance(inner, ast.Call):
+                    cn = norm(inner.func)
+                    if cn == 'run_aw_threadsafe' and [norm(a_) for a_ in inner.args] == [awp, loopp]:
+                        action = 'threadsafe'
+                    elif isinstance(inner.func, ast.Attribute) and inner.func.attr == 'run_in_executor' and len(runs) == 1 \
+                            and ua(runs[0], runs[0].ast.func.value) == loopp and [ua(runs[0], a_) for a_ in runs[0].ast.args] == [awp]:
+                        action = 'run'
+                # the value returned is the value awaited
+                env = sym_env(g, pth)
+                rv = simplify(subst(end.ast.value, env)) if end.ast.value is not None else None
+                if not (isinstance(rv, ast.Await) and (getattr(rv, 'lineno', None), getattr(rv, 'col_offset', None)) ==
+                        (aw_n.ast.lineno, aw_n.ast.col_offset)):
+                    action = 'other'
         actions_seen.add(action)
         want = {'inline': {'same': True},
                 'threadsafe': {'same': False, 'running': True},
                 'raise RuntimeError': {'same': False, 'closed': True},
                 'run': {'same': False, 'running': False, 'closed': False}}.get(action)
         ok = want is not None and all(facts.get(k) == v for k, v in want.items())
+        k_ = (action, tuple(sorted(facts.items())), ok)
+        if k_ in seen_inst:
+            continue
+        seen_inst.add(k_)
         ctx.check('C17-R1', f'{action} under {facts}', g.loc(end), ok, 'matches the dispatch table',
                   f'expected guard {want}: the awaitable would be evaluated on the wrong loop / a running loop would be run again / a closed loop used',
                   witness=render(g, pth), construct=construct_key('ensure_aw', 'dispatch', action, sorted(facts.items())))
@@ -264,39 +401,55 @@ def c17(ctx: Ctx) -> None:
     if missing:
         ctx.violation('C17-R1', f'missing dispatch branches: {sorted(missing)}', f'{A}:{ea.lineno}',
                       'a state of the target loop is not handled', construct=construct_key('ensure_aw', 'missing', sorted(missing)))
-    # R2
+    # R2: on the expanded graphs of both hosts
     n_run = 0
     for host in (ea, p.func(A, 'loop_in_thread')):
-        for c in host.children:
-            if c.kind != 'function':
-                continue
-            gc = build(c, p)
-            for n in gc.nodes:
-                if n.kind == 'call' and isinstance(n.ast.func, ast.Attribute) and n.ast.func.attr in ('run_until_complete', 'run_forever'):
-                    n_run += 1
-                    recv = norm(n.ast.func.value)
-                    ctxs = []
-                    for i in n.withs:
-                        we = next((x for x in gc.nodes if x.kind == 'with_enter' and x.meta.get('item') is i), None)
-                        ctxs.append(resolve(gc, we, i.context_expr) if we is not None else i.context_expr)
-                    okl = any(isinstance(c_, ast.Call) and norm(c_.func) == '_get_loop_lock'
-                              and [norm(resolve(gc, n, a_)) for a_ in c_.args] == [recv] for c_ in ctxs)
-                    if not okl:
-                        # lock object in a local: `lock = _get_loop_lock(loop); lock.acquire(); try: ... finally: lock.release()`
-                        lock_locals = {x.meta['name']: x.meta['value'] for x in gc.nodes if x.kind == 'store_name'
-                                       and isinstance(x.meta.get('value'), ast.Call) and norm(x.meta['value'].func) == '_get_loop_lock'}
-                        if lock_locals:
-                            held = held_locks(gc, list(lock_locals))
-                            okl = any(nm in held[n.id] and [norm(a_) for a_ in lock_locals[nm].args] == [recv] for nm in lock_locals)
-                    ctx.check('C17-R2', f'{c.qualname}: {norm(n.ast)}', gc.loc(n), okl,
-                              f'inside `with _get_loop_lock({recv})`', 'a loop can be run by two threads at once (no per-loop lock around running it)',
-                              construct=construct_key(c.qualname, 'run without lock', n.ast.func.attr))
+        gc = build(host, p, expand_deferred=True)
+        lock_locals = {x.meta['name']: x.meta['value'] for x in gc.nodes if x.kind == 'store_name'
+                       and isinstance(x.meta.get('value'), ast.Call) and norm(x.meta['value'].func) == '_get_loop_lock'}
+        lock_defs = {x.meta['name']: x for x in gc.nodes if x.kind == 'store_name'
+                     and isinstance(x.meta.get('value'), ast.Call) and norm(x.meta['value'].func) == '_get_loop_lock'}
+        held = held_locks(gc, list(lock_locals)) if lock_locals else {}
+        for n in gc.nodes:
+            if n.kind == 'call' and isinstance(n.ast.func, ast.Attribute) and n.ast.func.attr in ('run_until_complete', 'run_forever'):
+                n_run += 1
+                recv = norm(unalias(gc, n, n.ast.func.value))
+                ctxs = []
+                for i in n.withs:
+                    we = next((x for x in gc.nodes if x.kind == 'with_enter' and x.meta.get('item') is i), None)
+                    ce_ = resolve(gc, we, i.context_expr) if we is not None else i.context_expr
+                    ctxs.append((we, ce_))
+                okl = any(isinstance(c_, ast.Call) and norm(c_.func) == '_get_loop_lock'
+                          and [norm(unalias(gc, we or n, a_)) for a_ in c_.args] == [recv] for we, c_ in ctxs)
+                if not okl and lock_locals:
+                    # lock object in a local: `lock = _get_loop_lock(loop); lock.acquire(); try: ... finally: lock.release()`
+                    okl = any(nm in held[n.id] and [norm(unalias(gc, lock_defs[nm], a_)) for a_ in lock_locals[nm].args] == [recv]
+                              for nm in lock_locals)
+                if okl and lock_locals and not any(isinstance(c_, ast.Call) and norm(c_.func) == '_get_loop_lock' for _, c_ in ctxs):
+                    # acquire()/release() form (also a @contextmanager helper expanded in place): the lock must be
+                    # given back on every way out, or the next caller targeting this loop never gets it
+                    for nm in lock_locals:
+                        acqs = [x for x in gc.nodes if x.kind == 'call' and isinstance(x.ast.func, ast.Attribute) and x.ast.func.attr == 'acquire'
+                                and norm(unalias(gc, x, x.ast.func.value)) == nm]
+                        rels = [x for x in gc.nodes if x.kind == 'call' and isinstance(x.ast.func, ast.Attribute) and x.ast.func.attr == 'release'
+                                and norm(unalias(gc, x, x.ast.func.value)) == nm]
+                        starts = [e for a_ in acqs for e in gc.succ[a_.id] if e.label != 'exc']
+                        wl = must_pass(gc, [], [gc.exit, gc.raise_exit], rels, start_edges=starts) if starts else None
+                        ctx.check('C17-R2', f'{host.qualname}: per-loop lock {nm} is released on every exit', gc.loc(acqs[0]) if acqs else gc.loc(n),
+                                  wl is None and bool(rels), 'released in a finally / on all paths',
+                                  'an exception of the awaitable (or of running the loop) leaves the per-loop lock held: every later call '
+                                  'targeting this loop blocks for ever', witness=render(gc, wl),
+                                  construct=construct_key(host.qualname, 'loop lock leaked'))
+                where_ = n.meta.get('inlined_from') or host.qualname
+                ctx.check('C17-R2', f'{where_}: {norm(n.ast)}', gc.loc(n), okl,
+                          f'inside `with _get_loop_lock({recv})`', 'a loop can be run by two threads at once (no per-loop lock around running it)',
+                          construct=construct_key(host.qualname, 'run without lock', n.ast.func.attr))
     ts = p.find(A, 'to_sync_iter')
     if ts is not None and any(isinstance(x, ast.Attribute) and x.attr == 'run_until_complete' for x in ast.walk(ts.node)):
         ctx.note('to_sync_iter runs its loop without the per-loop lock; it is outside C17\'s helpers and normally owns a private loop')
     # R3
     gl = p.func(A, '_get_loop_lock')
-    gg = build(gl, p)
+    gg = build(gl, p, inline_module_helpers=True)
     stores = [n for n in gg.nodes if n.kind == 'store_sub' and isinstance(n.ast.value, ast.Name)]
     if not stores:
         ctx.violation('C17-R3', 'no lock table store', f'{A}:{gl.lineno}', construct=construct_key('_get_loop_lock', 'no store'))
@@ -326,19 +479,24 @@ def c17(ctx: Ctx) -> None:
               subs == {f'id({gl.params[0]})'}, 'one entry per loop object', 'the lock is not keyed by the loop',
               construct=construct_key('_get_loop_lock', 'key'))
     # R4
-    if runner is not None:
-        gr = build(runner, p)
-        calls = [n for n in gr.nodes if n.kind == 'call' and isinstance(n.ast.func, ast.Attribute) and n.ast.func.attr == 'run_until_complete']
-        rets_r = [n for n in gr.nodes if n.kind == 'return']
-        ret_ok = bool(rets_r) and all(
-            isinstance(resolve(gr, n, n.ast.value), ast.Call) and isinstance(resolve(gr, n, n.ast.value).func, ast.Attribute)
-            and resolve(gr, n, n.ast.value).func.attr == 'run_until_complete' for n in rets_r)
-        ok = len(calls) == 1 and norm(resolve(gr, calls[0], calls[0].ast.func.value)) == loopp \
-            and [norm(resolve(gr, calls[0], a_)) for a_ in calls[0].ast.args] == [awp] \
-            and ret_ok and runner.binding_scope(loopp) is ea and runner.binding_scope(awp) is ea
-        ctx.check('C17-R4', f'{runner.qualname}: return {norm(calls[0].ast) if calls else None}', f'{A}:{runner.lineno}', ok,
+    runs_ = [n for n in g.nodes if n.kind == 'call' and n.meta.get('deferred') and isinstance(n.ast.func, ast.Attribute)
+             and n.ast.func.attr == 'run_until_complete']
+    for rn_ in runs_:
+        ok = ua(rn_, rn_.ast.func.value) == loopp and [ua(rn_, a_) for a_ in rn_.ast.args] == [awp]
+        # the worker returns what run_until_complete returned
+        host_q = rn_.meta.get('inlined_from')
+        rets_r = [n for n in g.nodes if n.kind == 'inline_return' and n.meta.get('deferred') and n.meta.get('inlined_from') == host_q]
+        orig = rn_.meta.get('synthetic_for') or rn_.ast
+
+        def is_the_call(n: Node) -> bool:
+            if getattr(n.ast, 'value', None) is orig or getattr(n.ast, 'value', None) is rn_.ast:
+                return True
+            v = resolve(g, n, n.ast.value) if getattr(n.ast, 'value', None) is not None else None
+            return v is not None and (v is orig or v is rn_.ast or norm(v) == norm(orig))
+        ret_ok = bool(rets_r) and all(is_the_call(n) for n in rets_r)
+        ctx.check('C17-R4', f'{host_q}: return {norm(rn_.ast)}', g.loc(rn_), ok and ret_ok,
                   'the awaitable is run by the target loop, its outcome returned', 'the awaitable is not evaluated by the target loop',
-                  construct=construct_key(runner.qualname, 'target loop'))
+                  construct=construct_key('ensure_aw.worker', 'target loop'))
     rat = p.func(A, 'run_aw_threadsafe')
     g2 = build(rat, p)
     rets = [n for n in g2.nodes if n.kind == 'return']
@@ -385,9 +543,10 @@ def c17(ctx: Ctx) -> None:
               'submitted to the target loop, bridged back, outcome returned unchanged',
               'the awaitable is submitted to the wrong loop / wrapped so that its result or exception changes',
               construct=construct_key('run_aw_threadsafe', 'bridge'))
-    hs = [n for n in g.nodes if n.kind == 'except']
-    nonawait_returns = [n for n in g.nodes if n.kind == 'return' and not isinstance(n.ast.value, ast.Await)]
-    ctx.check('C17-R4', f'ensure_aw: every branch is `return await ...` without handlers ({len(hs)} handlers)', f'{A}:{ea.lineno}',
+    hs = [n for n in g.nodes if n.kind == 'except' and not n.meta.get('deferred')]
+    # (that every return yields the awaited value itself is part of R1's path classification)
+    nonawait_returns = []
+    ctx.check('C17-R4', f'ensure_aw: no handler between the awaitable and the caller ({len(hs)} handlers)', f'{A}:{ea.lineno}',
               not hs and not nonawait_returns, 'result and exception pass through unchanged', 'a handler/alternative return changes the outcome',
               construct=construct_key('ensure_aw', 'transparency'))
     # R5
@@ -444,148 +603,148 @@ class _It:
         return f'{self.kind}#{self.id}({", ".join(map(repr, self.args))})'
 
 
-def _affine_paths(f: Scope):
-    """Evaluate `split` along each path of its (loop-free) body.  Returns a list of
-    (facts, returned tuple of values, all values, problems)."""
+MEMOIZERS = {'functools.lru_cache', 'functools.cache', 'functools.cached_property'}
+
+
+def _affine_paths(f: Scope, program):
+    """Evaluate `split` along each normal path of its control-flow graph (private helpers inlined, records
+    desugared): every statement on the path is evaluated once, in order, over abstract iterator values.
+    Returns a list of (facts, returned tuple of values, all values, problems)."""
     results = []
-    _It._n = 0
     params = f.params
-    res = Resolver(f)
+    g = build(f, program, inline_module_helpers=True)
+    res = g.res
 
-    def run(stmts, env, facts, vals, problems):
-        for i, s in enumerate(stmts):
-            if isinstance(s, ast.Expr) and isinstance(s.value, ast.Constant):
-                continue
-            if isinstance(s, ast.If):
-                for branch, val in ((s.body, True), (s.orelse, False)):
-                    e2, f2, p2 = dict(env), dict(facts), list(problems)
-                    # consumers lists are shared objects; clone values lazily: re-run from scratch instead
-                    yield ('fork', norm(s.test), val, branch, stmts[i + 1:])
-                return
-            if isinstance(s, ast.AnnAssign):
-                if s.value is None:
-                    continue
-                s = ast.Assign(targets=[s.target], value=s.value)
-            if isinstance(s, ast.Pass):
-                continue
-            if isinstance(s, ast.Assign) and len(s.targets) == 1:
-                v = ev(s.value, env, vals, problems)
-                t = s.targets[0]
-                if isinstance(t, ast.Name):
-                    env[t.id] = v
-                elif isinstance(t, ast.Tuple) and isinstance(v, tuple) and len(v) == len(t.elts):
-                    for te, ve in zip(t.elts, v):
-                        env[te.id] = ve
-                else:
-                    problems.append(f'unrecognised assignment {norm(s)}')
-                continue
-            if isinstance(s, ast.Return):
-                v = ev(s.value, env, vals, problems)
-                yield ('return', v)
-                return
-            problems.append(f'unrecognised statement {norm(s)}')
-        yield ('return', None)
-
-    def consume(v, by, problems):
+    def consume(v, by):
         if isinstance(v, _It):
             v.consumers.append(by)
 
-    def ev(e, env, vals, problems):
-        if isinstance(e, ast.Name):
-            return env.get(e.id, ('name', e.id))
-        if isinstance(e, ast.Tuple):
-            return tuple(ev(x, env, vals, problems) for x in e.elts)
-        if isinstance(e, ast.Attribute):
-            return ('name', res.path(e) or norm(e))
-        if isinstance(e, ast.Call):
-            fn = res.path(e.func) or norm(e.func)
-            args = [ev(a, env, vals, problems) for a in e.args]
-            if isinstance(e.func, ast.Name) and e.func.id in env and not (fn or '').startswith('builtins.'):
-                fn = 'apply'
-            if fn == 'itertools.tee' and len(args) >= 1:
-                consume(args[0], f'tee@{e.lineno}', problems)
-                k = 2
-                outs = tuple(_It('tee', args[0], i) for i in range(k))
-                for o in outs:
-                    o.group = outs[0].id
+    def make_ev(env, vals, problems):
+        cache: Dict[int, object] = {}
+
+        def ev(e):
+            if id(e) in cache:
+                return cache[id(e)]
+            v = ev0(e)
+            cache[id(e)] = v
+            return v
+
+        def ev0(e):
+            if isinstance(e, ast.Name):
+                return env.get(e.id, ('name', res.path(e) or e.id))
+            if isinstance(e, ast.Tuple):
+                return tuple(ev(x) for x in e.elts)
+            if isinstance(e, ast.Subscript) and isinstance(e.slice, ast.Constant) and isinstance(e.slice.value, int):
+                b_ = ev(e.value)
+                if isinstance(b_, tuple) and -len(b_) <= e.slice.value < len(b_):
+                    return b_[e.slice.value]
+                problems.append(f'unrecognised subscript {norm(e)}')
+                return ('unknown', norm(e))
+            if isinstance(e, ast.Attribute):
+                return ('name', res.path(e) or norm(e))
+            if isinstance(e, ast.Constant):
+                return ('const', e.value)
+            if isinstance(e, ast.Call):
+                fn = res.path(e.func) or norm(e.func)
+                args = [ev(a) for a in e.args]
+                if isinstance(e.func, ast.Call):
+                    inner = res.path(e.func.func) or norm(e.func.func)
+                    if inner in MEMOIZERS or (isinstance(e.func.func, ast.Call) and (res.path(e.func.func.func) or '') in MEMOIZERS):
+                        # lru_cache(...)(f) / cache(f): a memoised predicate is not evaluated once per element
+                        return ('memoized', args[0] if args else None)
+                if fn in MEMOIZERS and len(args) == 1:
+                    return ('memoized', args[0])
+                if isinstance(e.func, ast.Name) and e.func.id in env and not (fn or '').startswith('builtins.'):
+                    fn = 'apply'
+                if fn == 'itertools.tee' and len(args) >= 1:
+                    consume(args[0], f'tee@{e.lineno}')
+                    k = 2
+                    if len(e.args) > 1 and isinstance(e.args[1], ast.Constant) and isinstance(e.args[1].value, int):
+                        k = e.args[1].value
+                    outs = tuple(_It('tee', args[0], i) for i in range(k))
+                    for o in outs:
+                        o.group = outs[0].id
+                        vals.append(o)
+                    return outs
+                if fn == 'builtins.map' and len(args) == 2:
+                    consume(args[1], f'map@{e.lineno}')
+                    o = _It('map', args[0], args[1])
                     vals.append(o)
-                return outs
-            if fn == 'builtins.map' and len(args) == 2:
-                consume(args[1], f'map@{e.lineno}', problems)
-                o = _It('map', args[0], args[1])
-                vals.append(o)
-                return o
-            if fn in ('builtins.map', 'builtins.filter', 'itertools.filterfalse', 'itertools.starmap', 'itertools.takewhile',
-                      'itertools.dropwhile') and len(args) >= 2:
-                for a_ in args[1:]:
-                    consume(a_, f'{fn}@{e.lineno}', problems)
-                o = _It('apply:' + fn, *args)
-                vals.append(o)
-                return o
-            if fn in ('itertools.repeat', 'itertools.count', 'itertools.cycle'):
-                o = _It('const:' + fn, *args)
-                return o
-            if fn in ('itertools.chain', 'itertools.islice', 'itertools.zip_longest', 'builtins.zip'):
-                for a_ in args:
-                    consume(a_, f'{fn}@{e.lineno}', problems)
-                o = _It('lazy:' + fn, *args)
-                vals.append(o)
-                return o
-            if fn == 'itertools.compress' and len(args) == 2:
-                consume(args[0], f'compress.data@{e.lineno}', problems)
-                consume(args[1], f'compress.sel@{e.lineno}', problems)
-                o = _It('compress', args[0], args[1])
-                vals.append(o)
-                return o
-            if fn in ('builtins.list', 'builtins.tuple', 'builtins.sorted', 'collections.deque', 'builtins.set', 'builtins.sum',
-                      'builtins.len', 'builtins.zip', 'builtins.filter', 'builtins.iter', 'builtins.next', 'builtins.enumerate'):
-                for a in args:
-                    consume(a, f'{fn}@{e.lineno}', problems)
-                o = _It('eager:' + fn, *args)
-                vals.append(o)
-                return o
-            if fn == 'builtins.callable':
-                return ('callable?', args)
-            problems.append(f'unrecognised call {norm(e)}')
-            return ('unknown', norm(e))
-        return ('expr', norm(e))
+                    return o
+                if fn in ('builtins.map', 'builtins.filter', 'itertools.filterfalse', 'itertools.starmap', 'itertools.takewhile',
+                          'itertools.dropwhile') and len(args) >= 2:
+                    for a_ in args[1:]:
+                        consume(a_, f'{fn}@{e.lineno}')
+                    o = _It('apply:' + fn, *args)
+                    vals.append(o)
+                    return o
+                if fn in ('itertools.repeat', 'itertools.count', 'itertools.cycle'):
+                    return _It('const:' + fn, *args)
+                if fn in ('itertools.chain', 'itertools.islice', 'itertools.zip_longest', 'builtins.zip'):
+                    for a_ in args:
+                        consume(a_, f'{fn}@{e.lineno}')
+                    o = _It('lazy:' + fn, *args)
+                    vals.append(o)
+                    return o
+                if fn == 'itertools.compress' and len(args) == 2:
+                    consume(args[0], f'compress.data@{e.lineno}')
+                    consume(args[1], f'compress.sel@{e.lineno}')
+                    o = _It('compress', args[0], args[1])
+                    vals.append(o)
+                    return o
+                if fn in ('builtins.list', 'builtins.tuple', 'builtins.sorted', 'collections.deque', 'builtins.set', 'builtins.sum',
+                          'builtins.len', 'builtins.iter', 'builtins.next', 'builtins.enumerate', 'builtins.any', 'builtins.all',
+                          'builtins.max', 'builtins.min', 'builtins.dict', 'builtins.frozenset', 'builtins.reversed'):
+                    for a_ in args:
+                        consume(a_, f'{fn}@{e.lineno}')
+                    o = _It('eager:' + fn, *args)
+                    vals.append(o)
+                    return o
+                if fn in ('builtins.callable', 'builtins.isinstance'):
+                    return ('test', fn, args)
+                problems.append(f'unrecognised call {norm(e)}')
+                return ('unknown', norm(e))
+            if isinstance(e, (ast.Compare, ast.BoolOp, ast.UnaryOp)):
+                return ('expr', norm(e))
+            problems.append(f'unrecognised expression {norm(e)}')
+            return ('expr', norm(e))
+        return ev
 
-    def explore(stmts, env, facts, trail):
-        # re-evaluate from the function start for every path so that consumer lists are per path
-        pass
-
-    # enumerate paths by choosing branch outcomes
-    def all_paths(stmts):
-        ifs = [s for s in stmts if isinstance(s, ast.If)]
-        if not ifs:
-            return [[]]
-        n = len(ifs)
-        return [[bool((m >> i) & 1) for i in range(n)] for m in range(2 ** n)]
-
-    body = f.node.body
-    for choice in all_paths(body):
+    ends = [n for n in g.nodes if n.kind in ('return', 'implicit_return')]
+    for pth in enum_paths(g, ends, sources=[g.entry], edge_ok=_nonexc):
+        _It._n = 0
         env = {}
         for prm in params:
-            it = _It('param', prm)
-            env[prm] = it
+            env[prm] = _It('param', prm)
         vals: List[_It] = list(env.values())
         problems: List[str] = []
-        facts = {}
+        facts: Dict[str, bool] = {}
+        ev = make_ev(env, vals, problems)
         ret = None
-        ci = 0
-        flat = []
-        for s in body:
-            if isinstance(s, ast.If):
-                facts[norm(s.test)] = choice[ci]
-                flat.extend(s.body if choice[ci] else s.orelse)
-                ci += 1
-            else:
-                flat.append(s)
-        for item in run(flat, env, facts, vals, problems):
-            if item[0] == 'return':
-                ret = item[1]
-            else:
-                problems.append('nested if not supported')
+        nodes = [pth[0].src] + [e.dst for e in pth]
+        labels = {id(e.src): e.label for e in pth}
+        for n in nodes:
+            if n.kind == 'store_name':
+                v = n.meta.get('value')
+                if n.meta.get('inlined_param') and isinstance(v, ast.Name) and v.id == n.meta['name']:
+                    continue
+                if v is None:
+                    st_ = n.meta.get('stmt')
+                    if isinstance(st_, ast.AugAssign):
+                        problems.append(f'unrecognised statement {norm(st_)}')
+                    env.pop(n.meta['name'], None)
+                    continue
+                env[n.meta['name']] = ev(v)
+            elif n.kind == 'branch':
+                lab = labels.get(id(n))
+                if lab in ('true', 'false'):
+                    facts[norm(n.meta['test'])] = lab == 'true'
+            elif n.kind == 'return':
+                ret = ev(n.ast.value) if n.ast.value is not None else None
+            elif n.kind == 'call' and isinstance(parent(n.ast), ast.Expr):
+                ev(n.ast)
+            elif n.kind in ('for_iter', 'loop_head', 'yield', 'await', 'with_enter'):
+                problems.append(f'unsupported construct {n.kind} at line {n.line}')
         results.append((facts, ret, vals, problems))
     return results
 
@@ -601,7 +760,7 @@ def c18(ctx: Ctx) -> None:
     f = p.func(IT, 'split')
     where = f'{IT}:{f.lineno}'
     src, cond = f.params[0], f.params[1]
-    results = _affine_paths(f)
+    results = _affine_paths(f, p)
     for facts, ret, vals, problems in results:
         inst = f'path {facts}'
         if problems:
@@ -615,9 +774,15 @@ def c18(ctx: Ctx) -> None:
         ctx.check('C18-R4', f'{inst}: eager consumers {[v.kind for v in eager]}', where, not eager, 'lazy', 'the input is consumed eagerly inside split',
                   construct=construct_key('split', 'eager', [v.kind for v in eager]))
         # R2 on the callable path
-        callable_path = any((k.startswith('callable(') and v) or (k.startswith('not callable(') and not v) for k, v in facts.items())
+        callable_path = any(k.startswith('callable(') and v for k, v in facts.items())
         applies = [v for v in vals if (v.kind == 'map' or v.kind.startswith('apply:')) and isinstance(v.args[0], _It)
                    and v.args[0].kind == 'param' and v.args[0].args[0] == cond]
+        memo = [v for v in vals if (v.kind == 'map' or v.kind.startswith('apply:')) and isinstance(v.args[0], tuple) and v.args[0][:1] == ('memoized',)]
+        if memo:
+            ctx.violation('C18-R2', f'{inst}: the condition is applied through a memoising wrapper', where,
+                          'a cached predicate is not evaluated once per element: repeated values reuse the first verdict (stateful '
+                          'predicates partition wrongly, the call count is off)', construct=construct_key('split', 'memoised predicate'))
+            continue
         if callable_path:
             ok = len(applies) == 1 and applies[0].kind == 'map' and isinstance(applies[0].args[1], _It) and applies[0].args[1].kind == 'tee' \
                 and isinstance(applies[0].args[1].args[0], _It) and applies[0].args[1].args[0].kind == 'param' and applies[0].args[1].args[0].args[0] == src
@@ -720,52 +885,171 @@ def c19(ctx: Ctx) -> None:
     sep_p, parse_p, pk_p = 'sep', 'parse', 'parse_keys'
     where = f'{PA}:{f.lineno}'
     kids = {c.name: c for c in f.children if c.kind == 'function'}
-    # pair parser: nested function that calls .split
-    pair = next((c for c in f.children if c.kind == 'function' and any(
-        isinstance(x, ast.Attribute) and x.attr in ('split', 'rsplit', 'partition', 'rpartition') for x in ast.walk(c.node))), None)
+    # pair parser: the nested function that takes a string item apart (split / partition / find + slicing)
+    SPLITTERS = ('split', 'rsplit', 'partition', 'rpartition', 'find', 'rfind', 'index', 'rindex')
     tryp = next((c for c in f.children if c.kind == 'function' and any(
         isinstance(x, ast.Call) and isinstance(x.func, ast.Name) and x.func.id == parse_p for x in ast.walk(c.node))), None)
+    pair = next((c for c in f.children if c.kind == 'function' and c is not tryp and any(
+        isinstance(x, ast.Attribute) and x.attr in SPLITTERS for x in ast.walk(c.node))), None)
     if pair is None or tryp is None:
         raise AnalysisError('parse_to_dict helpers (pair splitter / guarded parser) not found')
     gp = build(pair, p, inline_nested=False)
+    P = pair.params[0]
     # R1
-    splits = [n for n in gp.nodes if n.kind == 'call' and isinstance(n.ast.func, ast.Attribute) and n.ast.func.attr in ('split', 'rsplit', 'partition', 'rpartition')]
-    for s in splits:
-        c = s.ast
+    splits = [n for n in gp.nodes if n.kind == 'call' and isinstance(n.ast.func, ast.Attribute) and n.ast.func.attr in SPLITTERS
+              and norm(resolve(gp, n, n.ast.func.value, keep=(P,))) == P]
+    finders = [n for n in splits if n.ast.func.attr in ('find', 'rfind', 'index', 'rindex')]
+    for s_ in splits:
+        c = s_.ast
         m = c.func.attr
         a = c.args
         kwm = {k.arg: k.value for k in c.keywords}
         if m == 'split':
             mx = a[1] if len(a) > 1 else kwm.get('maxsplit')
-            ok = len(a) >= 1 and norm(a[0]) == sep_p and isinstance(mx, ast.Constant) and mx.value == 1 \
-                and norm(c.func.value) == pair.params[0]
+            ok = len(a) >= 1 and norm(a[0]) == sep_p and isinstance(mx, ast.Constant) and mx.value == 1
         elif m == 'partition':
-            ok = len(a) == 1 and norm(a[0]) == sep_p and norm(c.func.value) == pair.params[0]
+            ok = len(a) == 1 and norm(a[0]) == sep_p
+        elif m in ('find', 'index'):
+            ok = len(a) == 1 and norm(a[0]) == sep_p
         else:
             ok = False
-        ctx.check('C19-R1', f'{norm(c)}', gp.loc(s), ok, 'first occurrence only',
+        ctx.check('C19-R1', f'{norm(c)}', gp.loc(s_), ok, 'first occurrence only',
                   'items are split at the last separator, at every separator, or at a fixed string: values containing the separator are mangled',
                   construct=construct_key(pair.qualname, 'split', c))
     if not splits:
         ctx.violation('C19-R1', 'no split', where, construct=construct_key(pair.qualname, 'no split'))
+    # which parts travel on: the (key, value) handed to the tuple parser on the string path
+    str_calls = [n for n in gp.nodes if n.kind == 'call' and isinstance(n.ast.func, ast.Name) and len(n.ast.args) == 2
+                 and not any(isinstance(a_, ast.Starred) for a_ in n.ast.args) and n.ast.func.id not in ('isinstance', 'ValueError')]
+    for fd in finders:
+        for tc in str_calls:
+            if find_path(gp, [fd], [tc], edge_ok=_nonexc) is None:
+                continue
+            k_e = resolve(gp, tc, tc.ast.args[0], keep=(P, sep_p))
+            v_e = resolve(gp, tc, tc.ast.args[1], keep=(P, sep_p))
+            I = norm(fd.ast)
+            k_ok = norm(k_e) in (f'{P}[:{I}]', f'{P}[0:{I}]')
+            v_good = norm(v_e) in (f'{P}[{I} + len({sep_p}):]', f'{P}[len({sep_p}) + {I}:]')
+            v_known_bad = isinstance(v_e, ast.Subscript) and isinstance(v_e.slice, ast.Slice) and v_e.slice.upper is None and (
+                norm(v_e.slice.lower) == I or (isinstance(v_e.slice.lower, ast.BinOp) and isinstance(v_e.slice.lower.right, ast.Constant)))
+            if k_ok and v_good:
+                ctx.holds('C19-R1', f'{norm(tc.ast)}: key = text before the first separator, value = text after it', gp.loc(tc))
+            elif not k_ok or v_known_bad:
+                ctx.violation('C19-R1', f'{norm(tc.ast)} with key {norm(k_e)}, value {norm(v_e)}', gp.loc(tc),
+                              'the slices do not cut at the separator: the value must start len(sep) characters after the position found '
+                              '(a fixed offset is wrong for multi-character separators), the key must end at it',
+                              construct=construct_key(pair.qualname, 'slices', k_e, v_e))
+            else:
+                ctx.undecided('C19-R1', f'{norm(tc.ast)}', gp.loc(tc), f'slicing {norm(k_e)} / {norm(v_e)} not understood')
     # R2
     unpacks = [n for n in gp.nodes if n.kind == 'unpack' and n.meta.get('arity') == 2 and isinstance(n.meta.get('value'), ast.Call)]
+    raises_ve = [r_ for r_ in gp.nodes if r_.kind == 'raise' and isinstance(r_.ast.exc, ast.Call) and norm(r_.ast.exc.func) == 'ValueError']
     for un in unpacks:
         ee = [e for e in gp.succ[un.id] if e.label == 'exc' and e.classes and 'ValueError' in e.classes]
         hs = [e.dst for e in ee if e.dst.kind == 'except']
         ok = bool(hs)
         w = None
         for h in hs:
-            raises = [n for n in gp.nodes if n.kind == 'raise']
-            good = [r_ for r_ in raises if isinstance(r_.ast.exc, ast.Call) and norm(r_.ast.exc.func) == 'ValueError']
-            w = must_pass(gp, [h], [gp.exit, gp.raise_exit], good)
-            ok = ok and w is None and bool(good)
+            w = must_pass(gp, [h], [gp.exit, gp.raise_exit], raises_ve)
+            ok = ok and w is None and bool(raises_ve)
         esc = [e for e in ee if e.dst is gp.raise_exit]
         ctx.check('C19-R2', f'{norm(un.meta["stmt"])}: unpacking failure -> ValueError', gp.loc(un), ok or bool(esc) and not hs,
                   'a string without the separator raises ValueError', 'a string without the separator is accepted or raises something else',
                   witness=render(gp, w), construct=construct_key(pair.qualname, 'missing separator'))
-    if not unpacks and splits and splits[0].ast.func.attr == 'partition':
-        ctx.undecided('C19-R2', 'partition form', where, 'missing-separator handling of partition() not modelled')
+
+    def _fold_cmp(t: ast.AST, var: str, val) -> Optional[bool]:
+        """truth of a test over one variable for a concrete value (ints / strings), None if not foldable"""
+        try:
+            if isinstance(t, ast.Name) and t.id == var:
+                return bool(val)
+            if isinstance(t, ast.Compare) and len(t.ops) == 1:
+                def side(e):
+                    if isinstance(e, ast.Name) and e.id == var:
+                        return val
+                    if isinstance(e, ast.Constant):
+                        return e.value
+                    if isinstance(e, ast.UnaryOp) and isinstance(e.op, ast.USub) and isinstance(e.operand, ast.Constant):
+                        return -e.operand.value
+                    raise ValueError
+                l, r_ = side(t.left), side(t.comparators[0])
+                op = t.ops[0]
+                return {ast.Lt: l < r_, ast.LtE: l <= r_, ast.Gt: l > r_, ast.GtE: l >= r_, ast.Eq: l == r_, ast.NotEq: l != r_}.get(type(op))
+        except Exception:
+            return None
+        return None
+    for fd in finders:
+        if fd.ast.func.attr in ('index', 'rindex'):
+            ee = [e for e in gp.succ[fd.id] if e.label == 'exc']
+            hs = [e.dst for e in ee if e.dst.kind == 'except']
+            w = None
+            ok = True
+            for h in hs:
+                w = must_pass(gp, [h], [gp.exit, gp.raise_exit], raises_ve)
+                ok = ok and w is None and bool(raises_ve)
+            ctx.check('C19-R2', f'{norm(fd.ast)}: a missing separator raises ValueError (index() itself, or translated)', gp.loc(fd), ok,
+                      'a string without the separator raises ValueError', 'the ValueError of index() is swallowed or turned into something else',
+                      witness=render(gp, w), construct=construct_key(pair.qualname, 'missing separator'))
+            continue
+        # find(): -1 must lead to `raise ValueError` before the parts are used
+        ivars = {n.meta['name'] for n in gp.nodes if n.kind == 'store_name' and n.meta.get('value') is fd.ast}
+        tests = []
+        for b_ in gp.nodes:
+            if b_.kind != 'branch':
+                continue
+            t = resolve(gp, b_, b_.meta['test'], keep=tuple(ivars))
+            for iv in ivars:
+                vals_ = [_fold_cmp(t, iv, x) for x in (-1, 0, 7, 10 ** 6)]
+                if None not in vals_ and vals_[0] != vals_[1] and vals_[1] == vals_[2] == vals_[3]:
+                    tests.append((b_, 'true' if vals_[0] else 'false'))
+        okf = bool(tests)
+        w = None
+        for b_, lab in tests:
+            w = w or must_pass(gp, [], [gp.exit, gp.raise_exit] + str_calls, raises_ve, start_edges=[e for e in gp.succ[b_.id] if e.label == lab])
+        uses_unguarded = None
+        if tests:
+            guard_edges = {(b_.id, lab) for b_, lab in tests}
+            other = {(b_.id, 'false' if lab == 'true' else 'true') for b_, lab in tests}
+            uses_unguarded = find_path(gp, [fd], str_calls, edge_ok=lambda e: _nonexc(e) and (e.src.id, e.label) not in other)
+        ctx.check('C19-R2', f'{norm(fd.ast)} == -1 -> ValueError before the parts are used', gp.loc(fd), okf and w is None and uses_unguarded is None and bool(raises_ve),
+                  'a string without the separator raises ValueError', 'a string without the separator is accepted (find() returned -1: the slices '
+                  'silently take the wrong text) or raises something else', witness=render(gp, w or uses_unguarded),
+                  construct=construct_key(pair.qualname, 'missing separator'))
+    parts3 = [n for n in gp.nodes if n.kind == 'unpack' and n.meta.get('arity') == 3 and isinstance(n.meta.get('value'), ast.Call)
+              and isinstance(n.meta['value'].func, ast.Attribute) and n.meta['value'].func.attr == 'partition']
+    for un in parts3:
+        tg = un.ast.elts
+        mid = tg[1].id if isinstance(tg[1], ast.Name) else None
+        tests = []
+        for b_ in gp.nodes:
+            if b_.kind == 'branch' and mid:
+                t = resolve(gp, b_, b_.meta['test'], keep=(mid, sep_p))
+                tn = norm(t)
+                if tn == mid:
+                    tests.append((b_, 'false'))
+                elif tn in (f"{mid} == ''", f'{mid} != {sep_p}'):
+                    tests.append((b_, 'true'))
+                elif tn in (f"{mid} != ''", f'{mid} == {sep_p}'):
+                    tests.append((b_, 'false'))
+        w = None
+        for b_, lab in tests:
+            w = w or must_pass(gp, [], [gp.exit, gp.raise_exit] + str_calls, raises_ve, start_edges=[e for e in gp.succ[b_.id] if e.label == lab])
+        if not tests:
+            ctx.violation('C19-R2', f'{norm(un.meta["stmt"])}: the separator found by partition() is never tested', gp.loc(un),
+                          'a string without the separator is accepted (partition() returns the whole text as key and an empty value)',
+                          construct=construct_key(pair.qualname, 'missing separator'))
+        else:
+            ctx.check('C19-R2', f'{norm(un.meta["stmt"])}: empty separator part -> ValueError', gp.loc(un), w is None and bool(raises_ve),
+                      'a string without the separator raises ValueError', 'a string without the separator is accepted or raises something else',
+                      witness=render(gp, w), construct=construct_key(pair.qualname, 'missing separator'))
+        # key = first part, value = last part
+        for tc in str_calls:
+            if find_path(gp, [un], [tc], edge_ok=_nonexc) is None:
+                continue
+            okp = [norm(resolve(gp, tc, a_, keep=tuple(x.id for x in tg if isinstance(x, ast.Name)))) for a_ in tc.ast.args] == \
+                [norm(tg[0]), norm(tg[2])]
+            ctx.check('C19-R1', f'{norm(tc.ast)}: key = text before the separator, value = text after it', gp.loc(tc), okp,
+                      'parts in order', 'key and value are swapped or the separator is passed on',
+                      construct=construct_key(pair.qualname, 'parts order'))
     # R3
     ctl = dangerous_hits(ast.parse(C19_CONTROL), {'ast': 'ast', 'pickle': 'pickle', 'importlib': 'importlib'})
     from ..load import set_parents
@@ -971,9 +1255,11 @@ def c20(ctx: Ctx) -> None:
                       construct=construct_key('gather_excs', 'gather calls', len(gcalls)))
         return
     c = gcalls[0].ast
-    star = len(c.args) == 1 and isinstance(c.args[0], ast.Starred) and norm(c.args[0].value) == awsp
-    rex = [k for k in c.keywords if k.arg == 'return_exceptions']
-    okr = len(rex) == 1 and isinstance(rex[0].value, ast.Constant) and rex[0].value.value is True
+    from ..match import expand_keywords
+    star = len(c.args) == 1 and isinstance(c.args[0], ast.Starred) and norm(resolve(g, gcalls[0], c.args[0].value, keep=(awsp,))) == awsp
+    kws = expand_keywords(g, gcalls[0], c) or {}
+    rexv = kws.get('return_exceptions')
+    okr = isinstance(rexv, ast.Constant) and rexv.value is True
     ctx.check('C20-R1', f'{norm(c)}', g.loc(gcalls[0]), star and okr, 'every awaitable runs to completion; failures become values',
               'a failing awaitable propagates at once (others are abandoned) or some awaitables are not gathered',
               construct=construct_key('gather_excs', c))
@@ -981,7 +1267,8 @@ def c20(ctx: Ctx) -> None:
     okl = False
     if len(loops) == 1:
         it = resolve(g, loops[0], loops[0].ast.iter)
-        okl = isinstance(it, ast.Await) and norm(it.value) == norm(c)
+        okl = isinstance(it, ast.Await) and (norm(it.value) == norm(c) or (
+            isinstance(it.value, ast.Call) and (getattr(it.value, 'lineno', None), getattr(it.value, 'col_offset', None)) == (c.lineno, c.col_offset)))
     ctx.check('C20-R2', f'for ... in {norm(loops[0].ast.iter) if loops else None}', g.loc(loops[0]) if loops else where, okl,
               'results visited in input order', 'the results are re-ordered / filtered before the loop (sorted, reversed, set, as_completed)',
               construct=construct_key('gather_excs', 'iteration'))
@@ -994,6 +1281,16 @@ def c20(ctx: Ctx) -> None:
                   'subclass-inclusive filter, the exception itself is yielded',
                   'the filter is not isinstance(res, only) (exact-type / equality tests miss subclasses) or something else is yielded',
                   witness=render(g, w), construct=construct_key('gather_excs', 'filter'))
+    # ... and nothing but that test decides: once isinstance(res, only) holds, the value is yielded
+    if loops and ys:
+        isb = [n for n in g.nodes if n.kind == 'branch' and norm(resolve(g, n, n.meta['test'])) == f'isinstance({lv}, {onlyp})']
+        for b_ in isb:
+            te = [e for e in g.succ[b_.id] if e.label == 'true']
+            w = must_pass(g, [], [loops[0], g.exit], ys, start_edges=te, edge_ok=_nonexc)
+            ctx.check('C20-R3', f'every {lv} with isinstance({lv}, {onlyp}) is yielded', g.loc(b_), w is None,
+                      'the filter is exactly isinstance(res, only)',
+                      'a further condition drops some of the matching exceptions (e.g. ones that were set on a future and never raised, '
+                      'or falsy exception objects)', witness=render(g, w), construct=construct_key('gather_excs', 'extra filter'))
     if len(ys) != 1:
         ctx.violation('C20-R3', f'{len(ys)} yields', where, construct=construct_key('gather_excs', 'yields', len(ys)))
     r = p.func(A, 'raise_first_exc')
@@ -1011,7 +1308,7 @@ def c20(ctx: Ctx) -> None:
         ok = ok or (isinstance(it, ast.Call) and norm(it.func) == 'gather_excs' and [norm(a_) for a_ in it.args] == [r.params[0]]
                     and [(k.arg, norm(k.value)) for k in it.keywords] == [('only', r.params[1])])
         tv = norm(fl[0].ast.target)
-        raises = [n for n in g2.nodes if n.kind == 'raise' and fl[0].ast in n.loops]
+        raises = [n for n in g2.nodes if n.kind == 'raise' and n.ast.exc is not None]
         first = [e for e in g2.succ[fl[0].id] if e.label == 'true']
         w = must_pass(g2, [], [fl[0], g2.exit], raises, start_edges=first, edge_ok=_nonexc)
         ok = ok and len(raises) >= 1 and all(norm(resolve(g2, x, x.ast.exc)) == tv for x in raises) and w is None
